@@ -355,9 +355,10 @@ static std::vector<Scenario> scenariosC03(bool thorough, const vp::Args& A) {
   struct C3 { uint8_t own; bool readOnly, genSyn; unsigned lockCount, busLost; };
   std::vector<C3> cfgs = {
     {0x31, false, false, 0, 2}, {0x31, true, false, 0, 2}, {0x31, false, true, 0, 1}, {0xFF, false, false, 3, 0},
+    {0x31, true, true, 0, 2},   // read-only AND SYN generation configured: nothing may be written, no AUTO-SYN either
     {0x03, false, false, 5, 3}, {0x31, false, true, 5, 0},
   };
-  if (!thorough) cfgs.resize(4);
+  if (!thorough) cfgs.resize(5);
   Tel foreignMS = mk("1008b509020d00", "015a"), foreignBC = mk("10fe070400");
   for (int enh = 0; enh < 2; enh++) {
     for (size_t ci = 0; ci < cfgs.size(); ci++) {
@@ -402,8 +403,8 @@ static std::vector<AnswerSpec> answerUniverse(uint8_t own) {
   uint8_t os = (uint8_t)(own + 5);
   return {
     AnswerSpec{-1, os, 0x07, 0x04, Bytes{}, ref::unhex("0ab5454255010203040506")},        // ident, no id
-    AnswerSpec{-1, os, 0xb5, 0x09, Bytes{0x0d}, ref::unhex("02a9aa")},                     // id 1, answer needs escapes
-    AnswerSpec{0x10, os, 0xb5, 0x09, Bytes{0x0d, 0x01}, ref::unhex("0155")},              // id 2, source restricted
+    AnswerSpec{-1, os, 0xb5, 0x09, Bytes{0x0d}, withCrc(ref::unhex("03a9aa00"), 3, 0xAA)},  // id 1, answer data AND its CRC need escapes
+    AnswerSpec{0x10, os, 0xb5, 0x09, Bytes{0x0d, 0x01}, withCrc(ref::unhex("0155"), 1, 0xA9)},  // id 2, source restricted, CRC of the answer is a9
     AnswerSpec{0x10, os, 0xb5, 0x09, Bytes{0x0d}, ref::unhex("0166")},                     // id 1, source restricted (same id as #1)
     AnswerSpec{-1, own, 0xb5, 0x10, Bytes{0x01}, ref::unhex("03000000")},                  // master destination, id 1, tail length 3
     AnswerSpec{-1, 0x08, 0xb5, 0x04, Bytes{0x01, 0x02, 0x03, 0x04}, ref::unhex("00")},     // foreign address, id 4
